@@ -18,7 +18,7 @@ META = {
                    "geometry of the new grids is computed by the real compute_geometry on the symbolic nodes; z3 decides "
                    "measure preservation, nesting and the parent maps for all coordinates",
     "assumptions": ["floats as exact reals (the fractions i/ratio are the doubles the code computes)",
-                    f"1-d grids: 2-3 cells on the x-axis, increasing nodes in [-4, 8] with spacing >= {MINLEN}, total length >= 1/4",
+                    f"1-d grids: 2-4 cells on the x-axis (cells and nodes numbered along the line and in five other orders), increasing nodes in [-4, 8] with spacing >= {MINLEN}, total length >= 1/4",
                     "triangle grids: one or two triangles with all vertices symbolic, and 2x1 / 2x2 structured triangle grids with "
                     "1-2 symbolic vertices; displacements of at most 1/8 in each coordinate (cells stay positively oriented)",
                     "extrusion layers: 2-3 symbolic increasing z values starting at 0, thickness >= 1/64"],
@@ -33,6 +33,12 @@ def shards(tier, seed):
     for n in ((2, 3) if tier == "quick" else (2, 3, 4)):
         for ratio in (2, 3, 4):
             out.append({"kind": "refine1d", "n": n, "ratio": ratio})
+    # grids whose cells / nodes are not numbered along the line (right-to-left, middle-out, gap-filling)
+    for n, node_perm, cell_perm, ratio in ((3, [3, 2, 1, 0], [0, 1, 2], 2), (3, [0, 1, 2, 3], [2, 1, 0], 3),
+                                           (4, [0, 1, 2, 3, 4], [0, 2, 3, 1], 2), (4, [2, 0, 4, 1, 3], [3, 1, 0, 2], 2),
+                                           (3, [1, 3, 0, 2], [1, 2, 0], 4)):
+        if tier != "quick" or n == 3 or cell_perm == [0, 2, 3, 1]:
+            out.append({"kind": "refine1d", "n": n, "ratio": ratio, "node_perm": node_perm, "cell_perm": cell_perm})
     for n, nn in (((2, 2), (2, 4), (3, 3)) if tier == "quick" else ((2, 2), (2, 3), (2, 4), (3, 3), (3, 4), (2, 6))):
         out.append({"kind": "remesh1d", "n": n, "num_nodes": nn})
     for nt in (1, 2):
@@ -60,18 +66,45 @@ def configure(cfg, tier):
     cfg.max_paths = 80
 
 
-def _line_grid(ctx, n, tag="x"):
+def _numbered_line_grid(positions, node_perm=None, cell_perm=None):
+    """1-d grid on the x-axis whose nodes / cells are numbered in the given order (position k gets
+    node number node_perm[k]; the cell between positions k and k+1 gets number cell_perm[k])."""
+    import porepy as pp
+    import scipy.sparse as sps_
+
+    n = len(positions) - 1
+    node_perm = list(range(n + 1)) if node_perm is None else list(node_perm)
+    cell_perm = list(range(n)) if cell_perm is None else list(cell_perm)
+    rows, cols, data = [], [], []
+    for k in range(n):
+        rows += [node_perm[k], node_perm[k + 1]]
+        cols += [cell_perm[k], cell_perm[k]]
+        data += [-1, 1]
+    cf = sps_.csc_matrix((data, (rows, cols)), shape=(n + 1, n))
+    fn = sps_.identity(n + 1, format="csc")
+    nodes = np.zeros((3, n + 1))
+    for k in range(n + 1):
+        nodes[0, node_perm[k]] = float(k)
+    g = pp.Grid(1, nodes, fn, cf, "numbered line grid")
+    return g, node_perm, cell_perm
+
+
+def _line_grid(ctx, n, tag="x", node_perm=None, cell_perm=None):
     import porepy as pp
 
     xs = [ctx.real(f"{tag}{i}", -4, 8) for i in range(n + 1)]
     for a, b in zip(xs, xs[1:]):
         ctx.assume(lift(b) - lift(a) >= rv(MINLEN))
     ctx.assume(lift(xs[-1]) - lift(xs[0]) >= rv(0.25))
-    g = pp.TensorGrid(np.arange(n + 1, dtype=float))
+    if node_perm is None and cell_perm is None:
+        g = pp.TensorGrid(np.arange(n + 1, dtype=float))
+        node_perm = list(range(n + 1))
+    else:
+        g, node_perm, cell_perm = _numbered_line_grid(list(range(n + 1)), node_perm, cell_perm)
     N = np.empty((3, n + 1), dtype=object)
     N.fill(SReal(rv(0)))
-    for i, x in enumerate(xs):
-        N[0, i] = x
+    for k, x in enumerate(xs):
+        N[0, node_perm[k]] = x
     g.nodes = N.copy().view(SymArr)
     g.compute_geometry()
     return g, xs
@@ -80,7 +113,8 @@ def _line_grid(ctx, n, tag="x"):
 def _cell_interval(g, c):
     """(lo, hi) x-coordinates of the two nodes of 1-d cell c (terms)."""
     cn = g.cell_nodes().tocsc()
-    a, b = cn.indices[cn.indptr[c]:cn.indptr[c + 1]]
+    idx = cn.indices[cn.indptr[c]:cn.indptr[c + 1]]
+    a, b = (idx[0], idx[-1]) if len(idx) else (0, 0)      # a degenerate cell has one node (both faces equal)
     xa, xb = lift(g.nodes[0, a]), lift(g.nodes[0, b])
     return z3.If(xa <= xb, xa, xb), z3.If(xa <= xb, xb, xa)
 
@@ -96,7 +130,7 @@ def harness(ctx, shard):
         return {k: (v if k == "shard" else np.asarray(v, dtype=float).tolist()) for k, v in c.items()}
 
     if kind == "refine1d":
-        g, xs = _line_grid(ctx, shard["n"])
+        g, xs = _line_grid(ctx, shard["n"], node_perm=shard.get("node_perm"), cell_perm=shard.get("cell_perm"))
         inputs["x"] = xs
         ratio = shard["ratio"]
         gn = pp.refinement.refine_grid_1d(g, ratio=ratio)
@@ -291,7 +325,12 @@ def replay_case(case):
     problems = []
     if kind in ("refine1d", "remesh1d", "extrude1d"):
         x = np.array(case["x"], dtype=float)
-        g = pp.TensorGrid(x)
+        if shard.get("node_perm") is not None:
+            g, node_perm, _ = _numbered_line_grid(list(range(x.size)), shard["node_perm"], shard["cell_perm"])
+            for k in range(x.size):
+                g.nodes[0, node_perm[k]] = x[k]
+        else:
+            g = pp.TensorGrid(x)
         g.compute_geometry()
     if kind == "refine1d":
         gn = pp.refinement.refine_grid_1d(g, ratio=shard["ratio"])
@@ -302,7 +341,11 @@ def replay_case(case):
         cn = gn.cell_nodes().tocsc()
         fill = np.zeros(g.num_cells)
         for c in range(gn.num_cells):
-            xa, xb = sorted(gn.nodes[0, cn.indices[cn.indptr[c]:cn.indptr[c + 1]]])
+            xs_c = sorted(gn.nodes[0, cn.indices[cn.indptr[c]:cn.indptr[c + 1]]])
+            if len(xs_c) != 2:
+                problems.append(f"new cell {c} has {len(xs_c)} node(s)")
+                continue
+            xa, xb = xs_c
             ks = [k for k in range(g.num_cells) if xa >= x[k] - 1e-12 and xb <= x[k + 1] + 1e-12]
             if len(ks) != 1:
                 problems.append(f"new cell [{xa}, {xb}] lies in {len(ks)} old cells")
